@@ -11,6 +11,12 @@ SLANTS = {
      change 2 should need an UNUSUAL BUT LEGITIMATE INPUT (a rarely combined set of constructor arguments, a structural coincidence
        such as equal thresholds / repeated sub-structures / ids in a particular sort order / a boundary value of a range, an alternative
        entry point such as from_json / from_list / from_short / from_cicJE / module level alias / sub class) or an error path taken first;""",
+ "interaction": """     change 1 should be wrong only where TWO FEATURES of the library meet (for example: defaults x negation, shared sub-propositions x assume/reduce,
+       integer leaves x configurator, explicit ids x generated ids of equal spelling, JSON loading x add(), numpy scalars x Bounds, sub classes x
+       serialisation) while each feature alone still behaves as before;
+     change 2 should sit on a BOUNDARY or an EARLY-EXIT / EXCEPTION PATH of a public method the property mentions: the empty, singleton or
+       all-equal input, the first / last element, a value exactly at a bound, a call that legitimately raises and is followed by an ordinary call,
+       a fast path for a special case that is taken slightly too often;""",
  "helpers": """     change 1 should be made in a HELPER, BASE CLASS or DUNDER METHOD that several public methods rely on (puan/__init__.py: Bounds, variable,
        their __eq__/__hash__/__lt__/__iter__; puan/misc; variable_ndarray.__new__/__array_finalize__; AtLeast.__init__/__eq__/__hash__/
        flatten/_dependencies/_id_generator; sorting and de-duplication of sub-propositions), so that its effect on the property is INDIRECT
